@@ -274,7 +274,7 @@ def run_conversation(rec, case):
                                                 silent_at + bound))
         rec.key('%s/%s/%s/%s' % (kind, transport, probe, ''.join(
             s[0] for s in steps)))
-        if rec.evaluations % 199 == 0:
+        if rec.evaluations % 199 == 1:
             rec.sample({'conversation': desc, 'steps': steps,
                         'down': wids[:10], 'up': want[:10]})
     finally:
@@ -355,7 +355,7 @@ def run_url(rec, case):
                                                HOSTS.index(host), bool(port),
                                                QUERIES.index(query),
                                                transport))
-        if rec.evaluations % 299 == 0:
+        if rec.evaluations % 299 == 1:
             rec.sample({'url': url, 'endpoint': ep,
                         'requests': [q['url'] for q in w.srv.requests][:3]})
     finally:
